@@ -138,12 +138,10 @@ pub fn main(spec_path: &str, result_path: &str) -> i32 {
         Ok(Err(e)) => BuildResult { ok: false, error: e, panicked: false, regenerated: None, reported_regenerated: None },
         Err(_) => BuildResult { ok: false, error: "builder panicked".into(), panicked: true, regenerated: None, reported_regenerated: None },
     };
-    // The result travels through a file descriptor that is not subject to the size limit in
-    // practice (tiny), but use stdout as a fallback.
+    // The result travels through stdout: a pipe is not subject to RLIMIT_FSIZE.
+    let _ = result_path;
     let js = serde_json::to_string(&res).unwrap();
-    if std::fs::write(result_path, &js).is_err() {
-        println!("{js}");
-    }
+    println!("BUILD-RESULT {js}");
     0
 }
 
